@@ -53,7 +53,7 @@ TIME_CFGS = [dict(BASE_CFGS[0], ka=k, client_id=b("ka%d" % k)) for k in (0, 1, 2
 
 PROFILES = {
     "flow": {},
-    "faults": {"p_fault": 0.05, "p_dead_call": 0.7, "p_session_loss": 0.25, "calls": 30},
+    "faults": {"p_fault": 0.05, "p_dead_call": 0.7, "p_session_loss": 0.25, "calls": 30, "p_broker_disconnect": 0.06},
     "cancel": {"p_cancel": 0.3, "p_pend": 0.45, "p_partial": 0.6, "p_byte": 0.3, "calls": 30},
     "inbound": {"p_inbound": 0.8, "w_poll": 14, "w_recv": 3, "calls": 40, "p_stale": 0.08},
     "limits": {"rm": [1, 1, 2, 3], "maxpkt": [0, 0, 40, 60, 200], "maxqos": [2, 1, 0], "payload_max": 60,
@@ -76,6 +76,10 @@ PROFILES = {
     # inbound QoS 2 exchanges across connection loss, lost broker sessions and refused CONNACKs
     "sessions": {"p_inbound": 0.7, "p_bad_connack": 0.3, "p_session_loss": 0.4, "p_drop": 0.15, "w_poll": 12, "w_recv": 3,
                  "p_dead_call": 0.6, "calls": 40, "max_conns": 10},
+    # keep-alive traffic under cancellation: polls dropped while a PINGREQ is being written / flushed
+    "pingcancel": {"time": True, "ska": [1, 2, 3], "p_pend": 0.5, "p_cancel": 0.45, "p_partial": 0.3, "p_no_pingresp": 0.1,
+                   "w_poll": 20, "w_recv": 4, "w_pub0": 1, "w_pub1": 1, "w_pub2": 0, "w_sub": 0, "w_unsub": 0, "w_disconnect": 0,
+                   "p_drop": 0.0, "p_fault": 0.0, "p_inbound": 0.1, "p_broker_disconnect": 0.0, "calls": 30, "p_delay": 0.3},
     "wrap": {"w_pub1": 8, "w_pub2": 8, "w_sub": 4, "w_unsub": 3, "rm": [1, 2, 3], "calls": 60, "p_session_loss": 0.02,
              "p_stale": 0.0, "p_setid": 0.7, "p_drop": 0.12, "p_fail_ack": 0.0, "max_conns": 10},
 }
@@ -97,6 +101,7 @@ COMMON = [
     ("wrap", [BASE_CFGS[4], BASE_CFGS[0]], 30, 300),
     ("ackcancel", BASE_CFGS[:2], 40, 400),
     ("sessions", BASE_CFGS[:3], 45, 450),
+    ("pingcancel", [TIME_CFGS[2], TIME_CFGS[4], TIME_CFGS[6]], 30, 300),
 ]
 
 # Edge-cover replay of the specification's state graph: (config, paths sampled in quick tier; thorough = all)
